@@ -8,6 +8,18 @@ import (
 )
 
 func init() {
+	if fk := os.Getenv("DSCHECK_DEBUG_CALLS"); fk != "" {
+		debugHook = func(w *core.World) {
+			for _, f := range w.RepoFns {
+				if core.FuncKey(f) == fk {
+					for _, c := range core.Calls(f) {
+						fmt.Println("CALL", core.CalleeKey(c), w.InstrPos(c))
+					}
+				}
+			}
+		}
+		return
+	}
 	if os.Getenv("DSCHECK_DEBUG_LOCKS") == "" {
 		return
 	}
